@@ -1,6 +1,6 @@
-CONSTANTS FailureThreshold = 5  SuccessThreshold = 2  HalfOpenRequests = 3  OpenDuration = 600  Ticks = {3, 601}  MaxLen = 0
+CONSTANTS FailureThreshold = 5  SuccessThreshold = 2  HalfOpenRequests = 3  OpenDuration = 600  Ticks = {3, 601}  MaxLen = 0  Races = {2, 5}
 SPECIFICATION Spec
 VIEW View
 INVARIANT TypeOK
-PROPERTIES OpensOnlyAfterThreshold HoldsWhileOpen ProbeAdmitted BoundedProbes ProbeCounted SuccCloses FailReopens ClosedAdmits SuccClears
+PROPERTIES OpensOnlyAfterThreshold HoldsWhileOpen ProbeAdmitted BoundedProbes ProbeCounted SuccCloses FailReopens ClosedAdmits SuccClears RaceBounded
 CHECK_DEADLOCK FALSE
